@@ -330,11 +330,11 @@ def inflate(draw, feats, dims=None, **kw):
 
 
 @st.composite
-def program_st(draw, max_features=3, faults=True, cfg=None, peek=True, relog=False, big=True, **kw):
+def program_st(draw, max_features=3, faults=True, cfg=None, peek=True, relog=False, big=True, big_dims=None, **kw):
     feats = [draw(feature_st(**kw)) for _ in range(draw(st.integers(1, max_features)))]
     prog = {"features": feats, "cfg": draw(cfg if cfg is not None else cfg_st())}
     if big and draw(st.integers(0, 15)) == 0:
-        prog["big"] = draw(inflate(feats, **kw))
+        prog["big"] = draw(inflate(feats, dims=big_dims, **kw))
     if relog and draw(st.integers(0, 4)) == 0:
         # a passing step whose code reconfigures logging (replaces the root logger's handlers for good)
         from .harness import _all_step_lists
